@@ -477,6 +477,8 @@ def gen_plan(seed: int, tier: str) -> dict:
         op = {"kind": kind, "prog": pi}
         if contention and loader != "pkg":
             op = {"kind": "render", "name": cname, "globals": {"gv": f"G{len(ops)}"}}
+            if ops and rng.random() < 0.3:
+                op.pop("globals")    # a caller without globals of its own after one with
             kind = "render"
         if "name" in op:
             pass
